@@ -30,7 +30,7 @@ class HookForce : public Force::Custom::Implementation {
 public:
     HookForce(int task, uint64_t seed, int nb) : task(task), seed(seed), nb(nb) {}
     void calcForce(const State& s, Vector_<SpatialVec>& bf, Vector_<Vec3>&, Vector& mf) const override {
-        if (++evals > 60000) throw std::runtime_error("evaluation budget of one task step exhausted");
+        if (++evals > 8000 || ++total > 30000) throw std::runtime_error("evaluation budget of this task exhausted");   // a collapsed step size fails the task, alone and under any schedule alike
         Rng r(seed); const double t = s.getTime();
         // accumulate a little before and a little after the callback: a re-entrant evaluation that
         // clobbers the arrays this element is accumulating into is then visible either way
@@ -41,7 +41,7 @@ public:
         int b = 1 + (int)r.below(nb); bf[b] += SpatialVec(Vec3(0.05, 0, -0.02), Vec3(0.4 * std::cos(t), 0.1, 0.2));
     }
     Real calcPotentialEnergy(const State&) const override { return 0; }
-    int task; uint64_t seed; int nb; mutable long evals = 0;
+    int task; uint64_t seed; int nb; mutable long evals = 0, total = 0;
 };
 class HookHandler : public PeriodicEventHandler {
 public:
@@ -133,7 +133,7 @@ struct SimTask {
     }
     // one request: advance to the next report time (returns after every integrator return)
     void step() {
-        const double target = (done + 1) * rc.dt; hook->evals = 0;    // a step that needs more than 60000 evaluations (collapsed step size) fails, alone and under any schedule alike
+        const double target = (done + 1) * rc.dt; hook->evals = 0;    // a step that needs more than 8000 evaluations, or a task that needs more than 30000, fails (collapsed step size), alone and under any schedule alike
         if (ts) { Integrator::SuccessfulStepStatus st = ts->stepTo(target); record((uint64_t)st); }
         else { for (int guard = 0; guard < 10000; ++guard) { Integrator::SuccessfulStepStatus st = integ->stepTo(target, Infinity); record((uint64_t)st); if (integ->getTime() >= target || st == Integrator::EndOfSimulation) break; } }
         ++done;
@@ -221,13 +221,13 @@ struct C46 : vf::Engine {
         int nt = r.range(2, tier == "thorough" ? 5 : 4);
         for (int k = 0; k < nt; ++k) { Op o = vf::mkop("task"); bool dup = k > 0 && r.chance(0.15);
             if (dup) { o = p.ops[r.below(k)]; } else { int integ = (int)r.below(hi::NINTEG); bool low = (integ == 0 || integ == 1 || integ == 5 || integ == 7);
-                o.set("seed", (long)(r.next() >> 16)).set("integ", integ).setr("acc", std::pow(10.0, -r.range(2, low ? 3 : 5))).setr("dt", r.pick(std::vector<double>{0.004, 0.01, 0.02, 0.04})).set("steps", r.range(3, 10)).set("stepper", r.chance(0.4) ? 1 : 0).set("mesh", r.chance(0.25) ? 1 : 0).set("cons", r.chance(0.3) ? 1 : 0).set("contact", r.chance(0.35) ? 1 : 0); }
+                o.set("seed", (long)(r.next() >> 16)).set("integ", integ).setr("acc", std::pow(10.0, -((low && !r.chance(0.3)) ? r.range(2, 3) : r.range(2, 5)))).setr("dt", r.pick(std::vector<double>{0.004, 0.01, 0.02, 0.04})).set("steps", r.range(3, 10)).set("stepper", r.chance(0.4) ? 1 : 0).set("mesh", r.chance(0.25) ? 1 : 0).set("cons", r.chance(0.3) ? 1 : 0).set("contact", r.chance(0.35) ? 1 : 0); }
             p.ops.push_back(o); }
         // fresh-process comparison (a quarter of the runs): the same plan is executed in two freshly started child processes, one of
         // which first runs unrelated "prelude" simulations and library calls; each task's solo digests must agree between the two
         if (r.chance(0.25)) { p.setcfg("xproc", 1); int np = r.range(1, 2);
             for (int k = 0; k < np; ++k) { int integ = r.chance(0.5) ? (int)p.ops[r.below(nt)].num("integ", 3) : (int)r.below(hi::NINTEG); bool low = (integ == 0 || integ == 1 || integ == 5 || integ == 7);
-                p.ops.push_back(vf::mkop("prelude").set("seed", (long)(r.next() >> 16)).set("integ", integ).setr("acc", std::pow(10.0, -r.range(2, low ? 3 : 5))).setr("dt", 0.01).set("steps", r.range(2, 5)).set("stepper", r.chance(0.4) ? 1 : 0).set("mesh", 0).set("cons", 0).set("contact", r.chance(0.5) ? 1 : 0)); }
+                p.ops.push_back(vf::mkop("prelude").set("seed", (long)(r.next() >> 16)).set("integ", integ).setr("acc", std::pow(10.0, -((low && !r.chance(0.3)) ? r.range(2, 3) : r.range(2, 5)))).setr("dt", 0.01).set("steps", r.range(2, 5)).set("stepper", r.chance(0.4) ? 1 : 0).set("mesh", 0).set("cons", 0).set("contact", r.chance(0.5) ? 1 : 0)); }
             p.ops.push_back(vf::mkop("prenoise").set("kind", (int)r.below(9)).set("seed", (long)(r.next() >> 40))); }
         p.setcfg("perturb0", (int)r.below(256)); p.setcfg("perturb1", (int)r.below(256));
         p.setcfg("clock_step", (long)r.pick(std::vector<long>{1, 1000, 250000, 40000000})); p.setcfg("clock_jump_at", r.chance(0.5) ? r.range(1, 400) : -1); p.setcfg("clock_jump", (long)r.pick(std::vector<long>{40000000L, 3000000, 900000000000L}));   // forward jumps only: clock() is monotone, and CMA-ES aborts the process on a backward reading
